@@ -6,6 +6,12 @@ ALL = ["C%02d" % i for i in range(1, 21)]
 
 # id -> (technique, level text, level note, design ref)
 CHECKS = {
+    "C03": (
+        "proptest-generated lines and protocol-respecting call sessions (enter/execute/interrupt/snapshot/set_listing) against a validity predicate: catch_unwind, wedge watchdog, bounded recovery to READY",
+        "Exploration by generated inputs and schedules: hundreds of thousands of lines (snippets, token soup over the whole vocabulary, mutations, arbitrary UTF-8, 1024-byte lines) and sessions per run, each ending with the recovery clause (interrupt, Stopped within 16 calls, PRINT 1 works). A panic anywhere in the library or a call that does not return is reported with the shrunk session.",
+        "Absence only up to sampling. Wedges are wall-clock based (20 s per case, re-confirmed in a fresh process). The terminal protocol of src/term/mod.rs is assumed; the real terminal (readline, signals, files) is emulated.",
+        "6 C03",
+    ),
     "C08": (
         "exhaustive enumeration (all 65536 Integers; boundary-pair cross product) + proptest random operand pairs against an i64 reference",
         "Exploration with an exact arithmetic oracle: every unary operation over the whole 16-bit range and every boundary pair is enumerated completely, random pairs cover the rest of the 2^32 pair space by sampling; float-to-Integer conversion is enumerated at every k+-delta around the limits through seven conversion sites. A wrapped or silently truncated value anywhere in these spaces is seen as a wrong printed number.",
